@@ -738,6 +738,7 @@ def units(tier):
     us += [("bk-tables", "unit_bk_tables", {}), ("bk-encode", "unit_bk_encode", {}), ("bk-charliteral", "unit_bk_charliteral", {})]
     # whole programs: the statement holds wherever a statement stands (repeat body, included / linked file, any block) - contracts/structure.py
     us += structure.units()
+    us += structure.expr_units()
     us += structure.kernel_units()
     return us
 
